@@ -138,7 +138,12 @@ func NewModule(name string, code *compiler.Code) *Module {
 	globals := make([]Object, globalsCount)
 	for i := 0; i < globalsCount; i++ {
 		symbol := code.Global(i)
-		globalsIndex[symbol.Name()] = int(i)
+		// Only the variables of the module's top-level scope are attributes
+		// of the module. A variable declared in a nested block has a slot of
+		// its own, possibly under the name of a top-level variable.
+		if index, found := code.GlobalIndex(symbol.Name()); found && index == i {
+			globalsIndex[symbol.Name()] = i
+		}
 		value := symbol.Value()
 		switch value := value.(type) {
 		case int64:
